@@ -360,11 +360,17 @@ def x_atomgrid(case, j, centre):
         return AtomGrid(rg, degrees=[int(g["deg"])], center=centre, rotate=rot)
     cuts = np.array([float(fr(q)) for q in pr["cuts"]])
     degs = [int(d) for d in pr["degs"]]
+    method = "lebedev"
+    if int(case["id"]) % 2 == 1:
+        # every second pruned case on maximum-determinant grids of the EVEN degree d - 1: the same band limit d // 2 per
+        # shell as the odd Lebedev degree d the specification names (PoissonX!ShellExact speaks about d \div 2 only)
+        method, degs = "maxdet", [d - 1 if d % 2 else d for d in degs]
     if case["ctor"] == "from_pruned":
-        ag = AtomGrid.from_pruned(rg, 1.0, r_sectors=cuts, d_sectors=degs, center=centre, rotate=rot)
+        ag = AtomGrid.from_pruned(rg, 1.0, r_sectors=cuts, d_sectors=degs, center=centre, rotate=rot, method=method)
     else:
         # PoissonX.tla: the shell of radius r gets degs[1 + #{j : cuts[j] < r}]
-        ag = AtomGrid(rg, degrees=[degs[int(np.searchsorted(cuts, r, side="left"))] for r in rg.points], center=centre, rotate=rot)
+        ag = AtomGrid(rg, degrees=[degs[int(np.searchsorted(cuts, r, side="left"))] for r in rg.points], center=centre, rotate=rot,
+                      method=method)
     if not set(int(d) for d in ag.degrees) <= set(degs):
         raise tlc.MachineryError(f"pruned grid has degrees {sorted(set(ag.degrees))}, the case admits {degs}")
     return ag
@@ -795,7 +801,8 @@ def select(cases, tier, rng):
         pool = [c for c in by[kind] if pred is None or pred(c)] or by[kind]
         picked.append(rng.choice(pool))
 
-    pick("x_pruned")
+    pick("x_pruned", lambda c: c["id"] % 2 == 0)                               # Lebedev shells
+    pick("x_pruned", lambda c: c["id"] % 2 == 1)                               # maximum-determinant shells of even degree
     pick("x_hetmol", lambda c: c["id"] % 2 == 0)                               # + linearity on the molecular grid
     pick("x_hetmol", lambda c: c["id"] % 2 == 1 and len(c["atoms"]) == 3)      # + Laplacian, three atoms
     pick("x_law", lambda c: len(c["atoms"]) == 1 and (c["rcut"] or c["boundary"] != "auto"))   # options are forwarded
